@@ -227,4 +227,4 @@ Definition clone_init (s : dd) (sx : nat) : rb :=
   mkrb s []
        (mkdd (S sx) (fun _ => fempty) (fupd (nm s) (S sx) 0%N) (fupd (usr s) (S sx) false)
              (fupd (rmd s) (S sx) false) (fun _ => false) 0 (fun _ => 0) (nblk s) false)
-       [] 0 false false UIdle 0%N.
+       [] 0 false false UIdle 1%N.   (* replica.New writes revision.counter = 1 *)
